@@ -1513,6 +1513,47 @@ func (b *Builder) PointerTwin(name string) {
 	b.label("skipcopy:pointer-twin")
 }
 
+// SharedHelperOverride declares two methods whose struct pairs hold the same named pair S -> T, so
+// that one generated helper serves both. The first one (by name, which is the order of generation)
+// overrides an inheritable setting at method level; the second one has no setting of its own and
+// must behave as the converter level says - a sibling's setting must not reach it through the
+// shared helper. Only the second method is executed. kind: "skipcopy" | "wrap-off".
+func (b *Builder) SharedHelperOverride(kind string) {
+	id := b.id()
+	sn, tn := fmt.Sprintf("Shared%dS", id), fmt.Sprintf("Shared%dT", id)
+	ref := []spec.Field{spec.F("Tags", spec.Slice(spec.Basic("string"))), spec.F("Credit", spec.Ptr(spec.Basic("int"))), spec.F("Attrs", spec.Map(spec.Basic("string"), spec.Basic("string")))}
+	fs, ft := append([]spec.Field{}, ref...), append([]spec.Field{}, ref...)
+	if b.O.Custom {
+		// a custom function inside the shared pair (for error locations)
+		vs, vt := b.extendPair(1)
+		fs, ft = append(fs, spec.F("Val", vs)), append(ft, spec.F("Val", vt))
+	}
+	b.A.Types = append(b.A.Types, &spec.TypeDecl{Name: sn, U: spec.Struct(fs...)})
+	b.B.Types = append(b.B.Types, &spec.TypeDecl{Name: tn, U: spec.Struct(ft...)})
+	s, t := spec.Named(b.A.Key, sn), spec.Named(b.B.Key, tn)
+	wrap := func(n string, extra bool) (*spec.T, *spec.T) {
+		wf, vf := []spec.Field{spec.F("Inner", s)}, []spec.Field{spec.F("Inner", t)}
+		if extra {
+			wf, vf = append(wf, spec.F("N", spec.Basic("int"))), append(vf, spec.F("N", spec.Basic("int")))
+		}
+		b.A.Types = append(b.A.Types, &spec.TypeDecl{Name: n + "S", U: spec.Struct(wf...)})
+		b.B.Types = append(b.B.Types, &spec.TypeDecl{Name: n + "T", U: spec.Struct(vf...)})
+		return spec.Named(b.A.Key, n+"S"), spec.Named(b.B.Key, n+"T")
+	}
+	as, at := wrap(fmt.Sprintf("OverWrap%d", id), false)
+	bs, bt := wrap(fmt.Sprintf("PlainWrap%d", id), true)
+	ma, sma := b.declare(fmt.Sprintf("AOver%d", id), as, at)
+	ma.NoExec = true
+	switch kind {
+	case "skipcopy":
+		sma.Doc = append(sma.Doc, "skipCopySameType")
+	case "wrap-off":
+		sma.Doc = append(sma.Doc, "wrapErrors no")
+	}
+	b.declare(fmt.Sprintf("BPlain%d", id), bs, bt)
+	b.label("shared-helper-override:" + kind)
+}
+
 // RecursiveLate declares a method over a wrapper of a recursive struct pair whose helper methods
 // are generated: X{Child *X | []X | map[string]X; Val P} -> Y{...}, with P -> Q converted by a
 // custom function that may need a context and may return an error. The helper for the recursive
